@@ -121,7 +121,8 @@ func (r *lockRoles) leaseMutableVG() *ssa.Function {
 			if base == nil {
 				return
 			}
-			if _, fresh := ir.Resolve(base).(*ssa.Alloc); !fresh && where == nil {
+			// construction: the provider is fresh in the storing function and has not escaped yet (v_lock_u.go)
+			if !r.underConstructionVU(base, in) && where == nil {
 				where = fn
 			}
 		})
